@@ -80,7 +80,7 @@ def main():
                 sh("git -C /repo checkout -- .")
                 sh("rm -rf %s/replays/*" % ROOT)
     meta.update(dict(confirmed=confirmed, confirmed_how=ran, base_commit=subprocess.check_output("git -C /repo rev-parse --short HEAD", shell=True, text=True).strip(),
-                     detection=detection, detected_by=[c for c, v in detection.items() if v["exit"] != 0]))
+                     detection=detection, detected_by=[c for c, v in detection.items() if v["exit"] == 1 and v["violations"] > 0]))
     json.dump(meta, open(os.path.join(dst, "meta.json"), "w"), indent=1)
     print(sid, "confirmed" if confirmed else "NOT CONFIRMED", ran[-1] if ran else "", "detected by", meta["detected_by"], {c: v["first"][:120] for c, v in detection.items()})
 
